@@ -184,7 +184,10 @@ class NodeRef(object):
 
 MSG_WHO_IS_ROUTER = 0x00
 MSG_I_AM_ROUTER = 0x01
+MSG_REJECT_MESSAGE = 0x03
+MSG_INIT_ROUTING_TABLE_ACK = 0x07
 MSG_NETWORK_NUMBER_IS = 0x13
+MSG_PROPRIETARY_FIRST = 0x80             # 0x80..0xFF: the message type is followed by a two-octet vendor identifier
 
 
 def build_npdu(payload=b"", msg=None, dnet=None, dadr=b"", snet=None, sadr=b"", hop=255, expecting_reply=False, prio=0):
@@ -209,6 +212,32 @@ def i_am_router_to_network(dnets):
 
 def network_number_is(net, flag):
     return build_npdu(net.to_bytes(2, "big") + bytes([flag]), msg=MSG_NETWORK_NUMBER_IS)
+
+
+# network layer messages that travel through routers and therefore arrive with the SNET/SADR of their originator
+# (clause 6.4.1, 6.4.4, 6.4.8, 6.2.2.5); snet/sadr = the originator as the last router stamped it
+
+def who_is_router_to_network(net=None, snet=None, sadr=b""):
+    """6.4.1: the question of a station, passed on by a router that does not know the answer (it adds SNET/SADR)."""
+    return build_npdu(b"" if net is None else net.to_bytes(2, "big"), msg=MSG_WHO_IS_ROUTER, snet=snet, sadr=sadr)
+
+
+def reject_message_to_network(reason, net, snet=None, sadr=b""):
+    """6.4.4: a router further away refuses a message towards `net`; directed at the originator of that message."""
+    return build_npdu(bytes([reason]) + net.to_bytes(2, "big"), msg=MSG_REJECT_MESSAGE, snet=snet, sadr=sadr)
+
+
+def initialize_routing_table_ack(entries=(), snet=None, sadr=b""):
+    """6.4.8: entries = (dnet, port id, port info octets)."""
+    body = bytes([len(entries)]) + b"".join(d.to_bytes(2, "big") + bytes([pid, len(info)]) + info for d, pid, info in entries)
+    return build_npdu(body, msg=MSG_INIT_ROUTING_TABLE_ACK, snet=snet, sadr=sadr)
+
+
+def proprietary_message(msg, vendor, data=b"", snet=None, sadr=b""):
+    """6.2.4: message types 0x80..0xFF carry a vendor identifier in front of their data."""
+    if not MSG_PROPRIETARY_FIRST <= msg <= 0xFF:
+        raise ValueError("not a proprietary message type")
+    return build_npdu(vendor.to_bytes(2, "big") + data, msg=msg, snet=snet, sadr=sadr)
 
 
 def parse_npdu(data):
